@@ -52,9 +52,17 @@ class Observer(ABC):
         """Re-initialise from scratch, discard attributes that don't come
         with the initialisation."""
         # TODO: test
+        # Attributes created after the first initialisation (e.g. lazily,
+        # within a callback) do not come with the initialisation.
+        names = getattr(self, "_names_after_init", None)
+        if names is not None:
+            for name in set(vars(self)) - names:
+                delattr(self, name)
         self.__init__(*self._init_args, **self._init_kwargs)
         self.last_update = None
         self._nr_callbacks = 0
+        if names is None:
+            self._names_after_init = set(vars(self)) | {"_names_after_init"}
 
     def _get_observed_events(self) -> Dict[str, str]:
         """Infer observed events from class methods starting with 'process_'."""
